@@ -161,6 +161,45 @@ example : SD [(100, 200), (300, 310), (400, 420)] ∧
   · intro e he; simp at he; rcases he with h | h | h <;> subst h <;> decide
   · simp
 
+/-- **tail_offset_bounded** — the offset `d` of `tail_on_retained_exon` (Props/C16PolyA.lean): the recorded internal
+    position lies `d = max 0 (internal − start of the first removed exon)` past the end of the retained exon; the first
+    removed exon passes the polyA test, so `d ≤ max 0 max_fake_terminal_exon_len` and `2·d` is less than the number of
+    bases of that exon after the position (fewer than a third of the exon lies before the tail).  Mirror at the 5' end. -/
+theorem tail_offset_bounded (mf : Int) (exons rb cb : List Iv) (info : PolyAInfo) (hsd : SD exons)
+    (hne : exons ≠ []) :
+    ∃ (r : AInfo) (a t : Int), addPolyaInfo mf exons rb cb info = some r ∧
+      correctReadInfo mf exons info = some (a, t) ∧
+      (0 < a → ∃ firstRemoved : Iv, exons[exons.length - a.toNat]? = some firstRemoved ∧
+        max 0 (info.internalPolyA - firstRemoved.1) ≤ max 0 mf ∧
+        2 * max 0 (info.internalPolyA - firstRemoved.1) < firstRemoved.2 - info.internalPolyA) ∧
+      (0 < t → ∃ lastRemoved : Iv, exons[t.toNat - 1]? = some lastRemoved ∧
+        max 0 (lastRemoved.2 - info.internalPolyT) ≤ max 0 mf ∧
+        2 * max 0 (lastRemoved.2 - info.internalPolyT) < info.internalPolyT - lastRemoved.1) := by
+  obtain ⟨r, a, t, hr, hcri, hlt, _, hA, hT, _⟩ := trimmed_exons_are_tail_exons mf exons rb cb info hsd hne
+  refine ⟨r, a, t, hr, hcri, ?_, ?_⟩
+  · intro h
+    have hm : exons.length - a.toNat < exons.length := by omega
+    have hmem : exons[exons.length - a.toNat] ∈ exons.drop (exons.length - a.toNat) := by
+      rw [List.drop_eq_getElem_cons hm]; exact List.mem_cons_self
+    obtain ⟨_, hc⟩ := hA _ hmem
+    refine ⟨exons[exons.length - a.toNat], by simp [hm], ?_⟩
+    simp only [polyaCounted, isPolyaExon, Bool.and_eq_true, Bool.or_eq_true, decide_eq_true_eq] at hc
+    omega
+  · intro h
+    have hm : t.toNat - 1 < exons.length := by omega
+    have hmem : exons[t.toNat - 1] ∈ exons.take t.toNat :=
+      List.mem_take_iff_getElem.2 ⟨t.toNat - 1, by omega, rfl⟩
+    obtain ⟨_, hc⟩ := hT _ hmem
+    refine ⟨exons[t.toNat - 1], by simp [hm], ?_⟩
+    simp only [polytCounted, isPolytExon, Bool.and_eq_true, Bool.or_eq_true, decide_eq_true_eq] at hc
+    omega
+
+example : SD [(100, 200), (300, 310), (400, 420)] ∧
+    correctReadInfo 40 [(100, 200), (300, 310), (400, 420)] ⟨425, -1, 302, -1⟩ = some (2, 0) := by
+  refine ⟨⟨?_, ?_⟩, by decide⟩
+  · intro e he; simp at he; rcases he with h | h | h <;> subst h <;> decide
+  · simp
+
 /-- **record_removed_exons_are_tail** — one alignment record (`reference_start ≥ 0`, SAM-valid CIGAR over all nine kinds,
     any sequence, any window), tail positions from the modelled finder, at least one exon: `add_polya_info` returns
     the exons `exons[t : len − a]`, and for every exon `e` removed at the 3' end
